@@ -48,8 +48,8 @@ type View struct {
 
 	fc     forkchoice.Forkchoice
 	FcHead string
-	Fin common.Checkpoint
-	Jus common.Checkpoint
+	Fin    common.Checkpoint
+	Jus    common.Checkpoint
 
 	mu      sync.Mutex
 	entries map[nodeKey]*Entry
